@@ -9,6 +9,8 @@
   (every variants-map entry points to a defined, eligible class carrying that tag).
 -/
 import Mashu.Discr
+import Mashu.DiscrF
+import Mashu.Generated
 namespace Mashu.Discr
 
 theorem findCls_append (cs : List Cls) (c x : Cls) (i : Nat) (h : findCls cs i = some x) :
@@ -234,3 +236,336 @@ example : run {} {} [.define ⟨1, some 0, some "a"⟩, .decode 0 (some "b"), .d
     = [.noVariant, .inst 2, .missingDiscriminator] := by decide
 
 end Mashu.Discr
+
+/-! ## formats: one compiled method per class and format, one registry per format -/
+namespace Mashu.DiscrF
+open Mashu.Discr
+
+/-- every registered class has a method OF ITS OWN for the format of the registry it is in -/
+def Inv (st : State) : Prop := ∀ e ∈ st.registry, hasOwn st.compiled e.2.2.2 e.1 = true
+
+theorem hasOwn_mono {comp comp' : List (Nat × Fmt)} (h : ∀ e ∈ comp, e ∈ comp') (c : Nat) (f : Fmt) :
+    hasOwn comp c f = true → hasOwn comp' c f = true := by
+  simp only [hasOwn, List.any_eq_true]
+  rintro ⟨e, he, hc⟩
+  exact ⟨e, h e he, hc⟩
+
+theorem methodOwner_own (cs : List Cls) (comp : List (Nat × Fmt)) (f : Fmt) (fuel c : Nat)
+    (h : hasOwn comp c f = true) : methodOwner cs comp f (fuel + 1) c = some c := by
+  simp [methodOwner, h]
+
+theorem lookup_mem {reg : List (Fmt × Nat × String × Nat)} {k : Fmt} {root : Nat} {t : String} {c : Nat}
+    (h : lookup reg k root t = some c) : ∃ e ∈ reg, e.1 = k ∧ e.2.2.2 = c := by
+  simp only [lookup, Option.map_eq_some_iff] at h
+  obtain ⟨e, he, hc⟩ := h
+  have hm := List.mem_of_find?_eq_some he
+  have hp := List.find?_some he
+  simp only [Bool.and_eq_true, beq_iff_eq] at hp
+  exact ⟨e, hm, hp.1.1, hc⟩
+
+theorem inv_init : Inv {} := by intro e he; simp at he
+
+theorem rescan_inv (m : Mode) (st : State) (f : Fmt) (root : Nat) (t : String) (h : Inv st) :
+    Inv (rescan false m st f root t).1 := by
+  have key : Inv { st with registry := refillReg st (regKey false f) root m, compiled := refillComp st f root m } := by
+    intro e he
+    simp only [refillReg, List.mem_append, List.mem_reverse, List.mem_filterMap] at he
+    rcases he with ⟨c, hc, hce⟩ | he
+    · cases htag : c.tag with
+      | none => simp [htag] at hce
+      | some tg =>
+        simp only [htag, Option.map_some, Option.some.injEq] at hce
+        subst hce
+        simp only [regKey, Bool.false_eq_true, if_false, hasOwn, refillComp, List.any_eq_true]
+        exact ⟨(c.id, f), by simp only [List.mem_append, List.mem_map]; exact Or.inl ⟨c, hc, rfl⟩, by simp⟩
+    · exact hasOwn_mono (by intro x hx; simp [refillComp, hx]) _ _ (h e he)
+  unfold rescan
+  simp only
+  split
+  · split <;> exact key
+  · exact key
+
+theorem step_inv (m : Mode) (st : State) (e : Event) (h : Inv st) : Inv (step false m st e).1 := by
+  cases e with
+  | define c =>
+    intro x hx
+    simp only [step] at hx ⊢
+    exact hasOwn_mono (by intro y hy; exact List.mem_cons_of_mem _ hy) _ _ (h x hx)
+  | decode f root tag =>
+    cases tag with
+    | none => exact h
+    | some t =>
+      simp only [step]
+      split
+      · split
+        · exact h
+        · exact rescan_inv m st f root t h
+      · exact rescan_inv m st f root t h
+
+theorem rescan_own (m : Mode) (st : State) (f : Fmt) (root : Nat) (t : String) (h : Inv st) (c o : Nat)
+    (ho : (rescan false m st f root t).2 = some (.inst c o)) : o = c := by
+  have hinv := rescan_inv m st f root t h
+  unfold rescan at ho hinv
+  simp only at ho hinv
+  split at ho
+  · rename_i c' hl
+    obtain ⟨e, he, hk, hc⟩ := lookup_mem hl
+    have hown : hasOwn (refillComp st f root m) c' f = true := by
+      have := (by
+        split at hinv
+        · split at hinv <;> exact hinv e he
+        · exact hinv e he : hasOwn (refillComp st f root m) e.2.2.2 e.1 = true)
+      simpa [hc, hk, regKey] using this
+    rw [methodOwner_own _ _ _ _ _ hown] at ho
+    simp only [Option.some.injEq, Outcome.inst.injEq] at ho
+    omega
+  · simp at ho
+
+/-- **C12 / C14, formats.**  With one registry per format every instance is built by the method
+    compiled for its OWN class, whatever the order of class definitions and of decode calls in
+    the different formats. -/
+theorem step_own (m : Mode) (st : State) (e : Event) (h : Inv st) (c o : Nat)
+    (ho : (step false m st e).2 = some (.inst c o)) : o = c := by
+  cases e with
+  | define k => simp [step] at ho
+  | decode f root tag =>
+    cases tag with
+    | none => simp [step] at ho
+    | some t =>
+      simp only [step] at ho
+      split at ho
+      · rename_i c' hl
+        obtain ⟨e, he, hk, hc⟩ := lookup_mem hl
+        have hown : hasOwn st.compiled c' f = true := by
+          have := h e he
+          simpa [hc, hk, regKey] using this
+        rw [methodOwner_own _ _ _ _ _ hown] at ho
+        simp only [Option.some.injEq, Outcome.inst.injEq] at ho
+        omega
+      · exact rescan_own m st f root t h c o ho
+
+theorem run_own (m : Mode) : ∀ (es : List Event) (st : State), Inv st →
+    ∀ c o, Outcome.inst c o ∈ run false m st es → o = c
+  | [], _, _, c, o, hm => by simp [run] at hm
+  | e :: es, st, h, c, o, hm => by
+      have hi := step_inv m st e h
+      simp only [run] at hm
+      split at hm
+      · rename_i out hout
+        rcases List.mem_cons.mp hm with heq | hrest
+        · exact step_own m st e h c o (by rw [hout, heq])
+        · exact run_own m es _ hi c o hrest
+      · exact run_own m es _ hi c o hm
+
+theorem history_own (m : Mode) (es : List Event) (c o : Nat) (hm : Outcome.inst c o ∈ run false m {} es) : o = c :=
+  run_own m es {} inv_init c o hm
+
+/-- the history of finding F19: S1 decoded from JSON, S2(S1) defined afterwards and first met
+    through from_dict, then decoded from JSON -/
+def f19History : List Event :=
+  [.define ⟨0, none, none⟩, .define ⟨1, some 0, some "1"⟩, .decode 1 0 (some "1"),
+   .define ⟨2, some 1, some "2"⟩, .decode 0 0 (some "2"), .decode 1 0 (some "2")]
+
+/-- with ONE registry for all formats (before F19) the last call builds the S2 instance with the
+    method compiled for S1 … -/
+theorem shared_registry_runs_parent_method :
+    run true {} {} f19History = [.inst 1 1, .inst 2 2, .inst 2 1] := by decide
+
+/-- … and with a registry per format it does not -/
+theorem per_format_registry_ok :
+    run false {} {} f19History = [.inst 1 1, .inst 2 2, .inst 2 2] := by decide
+
+
+/-! ### refinement: each format, seen alone, is the single-format machine of `Mashu.Discr` -/
+
+def forget : Outcome → Discr.Outcome
+  | .inst c _ => .inst c
+  | .missingDiscriminator => .missingDiscriminator
+  | .noVariant => .noVariant
+
+def projReg (g : Fmt) (reg : List (Fmt × Nat × String × Nat)) : List (Nat × String × Nat) :=
+  reg.filterMap (fun e => if e.1 == g then some e.2 else none)
+
+def proj (g : Fmt) (st : State) : Discr.State := { classes := st.classes, registry := projReg g st.registry }
+
+/-- the events format `g` sees: every definition, its own decode calls -/
+def evF (g : Fmt) : List Event → List Discr.Event
+  | [] => []
+  | .define c :: es => .define c :: evF g es
+  | .decode f root t :: es => if f == g then .decode root t :: evF g es else evF g es
+
+/-- the outcomes of the decode calls made in format `g` -/
+def runAt (g : Fmt) (m : Mode) : State → List Event → List Outcome
+  | _, [] => []
+  | st, .define c :: es => runAt g m (step false m st (.define c)).1 es
+  | st, .decode f root t :: es =>
+      let r := step false m st (.decode f root t)
+      match r.2 with
+      | some o => if f == g then o :: runAt g m r.1 es else runAt g m r.1 es
+      | none => runAt g m r.1 es
+
+theorem lookup_proj (g : Fmt) (root : Nat) (t : String) : ∀ (reg : List (Fmt × Nat × String × Nat)),
+    lookup reg g root t = Discr.lookup (projReg g reg) root t
+  | [] => rfl
+  | e :: reg => by
+      have ih := lookup_proj g root t reg
+      obtain ⟨k, r, tg, c⟩ := e
+      by_cases hk : k = g
+      · subst hk
+        simp only [lookup, Discr.lookup, projReg, List.filterMap_cons, beq_self_eq_true, if_true, List.find?_cons, Bool.true_and] at ih ⊢
+        by_cases hm : (r == root && tg == t) = true
+        · simp [hm]
+        · simp only [hm, Bool.false_eq_true, if_false]
+          simpa [lookup, Discr.lookup, projReg] using ih
+      · have hk' : (k == g) = false := by simp [hk]
+        simp only [lookup, Discr.lookup, projReg, List.filterMap_cons, hk', Bool.false_eq_true, if_false, List.find?_cons, Bool.false_and] at ih ⊢
+        simpa [lookup, Discr.lookup, projReg] using ih
+
+theorem projReg_append (g : Fmt) (a b : List (Fmt × Nat × String × Nat)) : projReg g (a ++ b) = projReg g a ++ projReg g b := by
+  simp [projReg, List.filterMap_append]
+
+theorem filterMap_tagged (cs : List Cls) (F : Cls → String → α) :
+    (cs.filter (fun c => c.tag.isSome)).filterMap (fun c => c.tag.map (F c)) = cs.filterMap (fun c => c.tag.map (F c)) := by
+  induction cs with
+  | nil => rfl
+  | cons c cs ih =>
+    cases h : c.tag with
+    | none => simp [List.filter_cons, h, ih]
+    | some t => simp [List.filter_cons, h, ih]
+
+theorem proj_refill_same (g : Fmt) (st : State) (root : Nat) (m : Mode) :
+    projReg g (refillReg st g root m) = Discr.refill (proj g st) root m := by
+  simp only [refillReg, Discr.refill, projReg_append, proj]
+  congr 1
+  simp only [tagged, projReg]
+  rw [filterMap_tagged (eligible st.classes root m) (fun c t => (g, root, t, c.id))]
+  rw [← List.filterMap_reverse, ← List.filterMap_reverse, List.filterMap_filterMap]
+  congr 1
+  funext c
+  cases c.tag <;> simp
+
+theorem proj_refill_other (g f : Fmt) (hf : (f == g) = false) (st : State) (root : Nat) (m : Mode) :
+    projReg g (refillReg st f root m) = projReg g st.registry := by
+  simp only [refillReg, projReg_append]
+  have : projReg g ((tagged st.classes root m).filterMap (fun c => c.tag.map (fun t => (f, root, t, c.id)))).reverse = [] := by
+    simp only [projReg, List.filterMap_eq_nil_iff, List.mem_reverse, List.mem_filterMap]
+    rintro e ⟨c, _, hc⟩
+    cases htag : c.tag with
+    | none => simp [htag] at hc
+    | some t => simp only [htag, Option.map_some, Option.some.injEq] at hc; subst hc; simp [hf]
+  rw [this, List.nil_append]
+
+/-- one decode call in format `g` is one step of the single-format machine on the projection -/
+theorem step_same (g : Fmt) (m : Mode) (st : State) (root : Nat) (tag : Option String) (h : Inv st) :
+    (step false m st (.decode g root tag)).2.map forget = (Discr.step m (proj g st) (.decode root tag)).2 ∧
+    proj g (step false m st (.decode g root tag)).1 = (Discr.step m (proj g st) (.decode root tag)).1 := by
+  cases tag with
+  | none => exact ⟨rfl, rfl⟩
+  | some t =>
+    have hl := lookup_proj g root t st.registry
+    have hrinv := rescan_inv m st g root t h
+    have hrescan : (rescan false m st g root t).2.map forget =
+        (match Discr.lookup (Discr.refill (proj g st) root m) root t with
+          | some c => some (Discr.Outcome.inst c) | none => some Discr.Outcome.noVariant) ∧
+        proj g (rescan false m st g root t).1 = { (proj g st) with registry := Discr.refill (proj g st) root m } := by
+      have hl2 := lookup_proj g root t (refillReg st g root m)
+      rw [proj_refill_same] at hl2
+      unfold rescan at hrinv ⊢
+      simp only [regKey, Bool.false_eq_true, if_false] at hrinv ⊢
+      rw [hl2]
+      cases hd : Discr.lookup (Discr.refill (proj g st) root m) root t with
+      | none => exact ⟨rfl, by simp [proj, proj_refill_same]⟩
+      | some c =>
+        rw [hd] at hl2
+        obtain ⟨e, he, hk, hc⟩ := lookup_mem hl2
+        simp only [hl2, hd] at hrinv
+        have hown : hasOwn (refillComp st g root m) c g = true := by
+          have := (by
+            split at hrinv <;> exact hrinv e he : hasOwn (refillComp st g root m) e.2.2.2 e.1 = true)
+          simpa [hc, hk] using this
+        simp only [methodOwner_own _ _ _ _ _ hown]
+        exact ⟨rfl, by simp [proj, proj_refill_same]⟩
+    simp only [step, Discr.step, regKey, Bool.false_eq_true, if_false]
+    rw [hl]
+    cases hd : Discr.lookup (projReg g st.registry) root t with
+    | some c =>
+      have hd' : Discr.lookup (proj g st).registry root t = some c := hd
+      rw [hd] at hl
+      obtain ⟨e, he, hk, hc⟩ := lookup_mem hl
+      have hown : hasOwn st.compiled c g = true := by
+        have := h e he; simpa [hc, hk] using this
+      simp only [proj, hd, methodOwner_own _ _ _ _ _ hown]
+      exact ⟨rfl, trivial⟩
+    | none =>
+      simp only [proj, hd]
+      have := hrescan
+      simp only [proj] at this
+      obtain ⟨h1, h2⟩ := this
+      refine ⟨?_, ?_⟩
+      · rw [h1]; cases Discr.lookup (Discr.refill { classes := st.classes, registry := projReg g st.registry } root m) root t <;> rfl
+      · rw [h2]; cases Discr.lookup (Discr.refill { classes := st.classes, registry := projReg g st.registry } root m) root t <;> rfl
+
+/-- a decode call in ANOTHER format leaves the projection alone -/
+theorem step_other (g f : Fmt) (hf : (f == g) = false) (m : Mode) (st : State) (root : Nat) (tag : Option String) :
+    proj g (step false m st (.decode f root tag)).1 = proj g st := by
+  cases tag with
+  | none => rfl
+  | some t =>
+    have hr : proj g (rescan false m st f root t).1 = proj g st := by
+      unfold rescan
+      simp only [regKey, Bool.false_eq_true, if_false]
+      split
+      · split <;> simp [proj, proj_refill_other g f hf]
+      · simp [proj, proj_refill_other g f hf]
+    simp only [step]
+    split
+    · split
+      · rfl
+      · exact hr
+    · exact hr
+
+theorem runAt_eq (g : Fmt) (m : Mode) : ∀ (es : List Event) (st : State), Inv st →
+    (runAt g m st es).map forget = Discr.run m (proj g st) (evF g es)
+  | [], _, _ => rfl
+  | .define c :: es, st, h => by
+      simp only [runAt, evF, Discr.run, Discr.step]
+      have := runAt_eq g m es _ (step_inv m st (.define c) h)
+      simpa [proj, step] using this
+  | .decode f root tag :: es, st, h => by
+      have hi := step_inv m st (.decode f root tag) h
+      have ih := runAt_eq g m es _ hi
+      by_cases hf : (f == g) = true
+      · have hfg : f = g := by simpa using hf
+        subst hfg
+        obtain ⟨h1, h2⟩ := step_same f m st root tag h
+        simp only [runAt, evF, beq_self_eq_true, if_true, Discr.run]
+        rw [← h2, ← h1]
+        cases hs : (step false m st (.decode f root tag)).2 with
+        | none => simpa [hs] using ih
+        | some o => simpa [hs] using ih
+      · have hf' : (f == g) = false := by simpa using hf
+        simp only [runAt, evF, hf', Bool.false_eq_true, if_false]
+        rw [step_other g f hf' m st root tag] at ih
+        cases hs : (step false m st (.decode f root tag)).2 with
+        | none => simpa [hs] using ih
+        | some o => simpa [hs] using ih
+
+
+/-- **C12 across formats.**  For every history of class definitions and decode calls made through
+    any number of formats (from_dict / from_json / from_msgpack of one mixin hierarchy), the calls of
+    each format return what the statement prescribes for the classes defined so far — independently
+    of what the other formats did in between — … -/
+theorem multi_format_correct (g : Fmt) (m : Mode) (es : List Event)
+    (hu : UniqueTags m (definedBy [] (evF g es))) :
+    (runAt g m {} es).map forget = Discr.runSpec m [] (evF g es) := by
+  rw [runAt_eq g m es {} inv_init]
+  exact decode_correct_init m (evF g es) hu
+
+/-- … and every instance is built by the method compiled for its own class (`history_own`). -/
+example : (runAt 1 {} {} f19History).map forget = [.inst 1, .inst 2] := by decide
+
+
+/-- what /repo does on this run (read from `SubtypeUnpackerBuilder._get_variants_attr`) -/
+theorem registry_pinned : Generated.subtypeRegistryPerFormat = true := by decide
+
+end Mashu.DiscrF
